@@ -36,7 +36,8 @@ def _case(draw, tier):
     l = draw(st.sampled_from([4, 8, 16, 16] + ([32, 64] if tier == 'thorough' else [])))
     nodes = draw(progs.int_program(m, l, max_nodes=7 if tier == 'quick' else 14, heavy=False, rnd=True))
     sched = draw(progs.schedule(m, rich=False))
-    return dict(m=m, t=t, prss=prss, l=l, seed=draw(st.integers(0, 2**20)), nodes=nodes, sched=sched)
+    return dict(m=m, t=t, prss=prss, l=l, seed=draw(st.integers(0, 2**20)), nodes=nodes, sched=sched,
+                cli_t=draw(progs.cli_threshold(m, t)))
 
 
 def strategy(tier):
